@@ -266,6 +266,10 @@ def generate(rng, ep):
         f["class_b"] = list(f["class"].encode())
         props = []
         plist = [p for p in CATALOG[f["class"]] if rng.random() < 0.8]
+        # properties a newer writer knows and the reader's database does not: skipped under the default options,
+        # and skipping them must not disturb the known properties written before or after them
+        plist += [p for p in (("VerifFutureFlag", "Bool"), ("VerifFutureLink", "Ref"), ("VerifFutureBlob", "SharedString"),
+                              ("VerifFutureText", "String")) if rng.random() < 0.3]
         for pname, ty in plist:
             if ty == "Ref":
                 tgt = rng.choice([0] + list(range(1, n + 1)))
